@@ -154,7 +154,11 @@ def extract_from_templates(
         ):
             # A partial reimplementation of Babel's messages.extract function.
             # See https://github.com/python-babel/babel/blob/master/babel/messages/extract.py#L262
-            spec: SPEC = keywords[funcname] or (1,)
+            # The included filters and tag report standard *gettext names, also when
+            # `keywords` only has the names they are registered as.
+            spec: SPEC = (
+                keywords.get(funcname) or DEFAULT_KEYWORDS.get(funcname) or (1,)
+            )
             if not isinstance(messages, (list, tuple)):
                 messages = (messages,)  # noqa: PLW2901
             if not messages:
